@@ -134,3 +134,8 @@ def check(prog: Program, rep):
     from rules.values import coefficients_converted
     coefficients_converted(prog, rep, "C07.R8", ["kLeastAbsErrors", "kLeastAbsErrorsCycles"])
     error_variables_rule(prog, rep, "C07.R8")
+    from rules.values import python_arithmetic as _pa
+    from sa.pm import AnalysisError as _AE
+    if _pa(prog, rep, "C07.R8", [prog.own_method(c, "is_valid_solution") for c in ['kLeastAbsErrors', 'kLeastAbsErrorsCycles']],
+           "is_valid_solution() reports the model's own optimal solution invalid (5 - 7 = 254 for np.uint8)") < 2:
+        raise _AE("is_valid_solution: the comparison of the flow values with the load of the routes was not found")
